@@ -436,7 +436,7 @@ func init() {
 			mandatory:   []string{"sequences", "offset==WindowSize", "matchlen==minimum", "shrink_discarding", "offset==stream_position"},
 			expected:    []string{"offset==WindowSize-1", "matchlen==MaxMatchLen"}},
 		types: gen.ParserTypes, quickN: 12000, thorMul: 80, corpusN: 300, large: true,
-		weights: HWeights{Write: 18, ReadFrom: 8, Parse: 30, ParseNTL: 10, ParseNil: 6, Shrink: 14, Reset: 1, ResetData: 2},
+		weights: HWeights{Write: 18, ReadFrom: 8, Parse: 30, ParseNTL: 10, ParseNil: 6, Shrink: 14, Reset: 1, ResetData: 2, Faults: true},
 		tweak: func(r *rand.Rand, pc *PCase, kind string) {
 			// windows smaller than the data so that the guard is under load
 			if r.Intn(2) == 0 {
@@ -576,7 +576,7 @@ func init() {
 			mandatory:   []string{"quadrant:flags0,seqs", "quadrant:flags0,noseqs", "quadrant:ntl,seqs", "quadrant:ntl,noseqs", "empty_buffer_reports", "unparsed>BlockSize", "unparsed<BlockSize", "second_parse_of_a_fill", "ntl_blocks_with_bytes_offered_again"},
 			expected:    []string{"unparsed==BlockSize"}},
 		types: gen.ParserTypes, quickN: 12000, thorMul: 80, corpusN: 300, large: true,
-		weights: HWeights{Write: 18, ReadFrom: 8, Parse: 26, ParseNTL: 22, ParseNil: 0, Shrink: 10, Reset: 1, ResetData: 2},
+		weights: HWeights{Write: 18, ReadFrom: 8, Parse: 26, ParseNTL: 22, ParseNil: 0, Shrink: 10, Reset: 1, ResetData: 2, Faults: true},
 		newObs: func(pc *PCase, ps *PState, c *core.Case, st *core.Stats) histObserver {
 			return &c03obs{cr: commonReach{st: st}, st: st}
 		},
@@ -665,7 +665,7 @@ func init() {
 			mandatory:   []string{"parse_nil_skips", "parse_nil_empty", "parse_nil_partial_drain", "blocks_after_skip", "matches_referencing_skipped_bytes"},
 		},
 		types: gen.ParserTypes, quickN: 12000, thorMul: 80, corpusN: 300, large: true,
-		weights: HWeights{Write: 18, ReadFrom: 8, Parse: 22, ParseNTL: 8, ParseNil: 22, Shrink: 12, Reset: 1, ResetData: 1},
+		weights: HWeights{Write: 18, ReadFrom: 8, Parse: 22, ParseNTL: 8, ParseNil: 22, Shrink: 12, Reset: 1, ResetData: 1, Faults: true},
 		newObs: func(pc *PCase, ps *PState, c *core.Case, st *core.Stats) histObserver {
 			return &c14obs{cr: commonReach{st: st}, st: st}
 		},
